@@ -40,6 +40,33 @@ def nuk_long(rng):
     return ops
 
 
+def nuk_medium(rng):
+    """Keys of 14..40 bytes (beyond any short-key fast path) with 0x00/0x01/0x02 at every position."""
+    L = rng.choice([14, 15, 16, 17, 24, 31, 32, 33, 40])
+    base = [rng.randrange(3, 255) for _ in range(L)]
+    keys = [base, base[:-1], base + [rng.randrange(3, 255)]]
+    for _ in range(6):
+        i = rng.randrange(L)
+        for b in (0, 1, 2):
+            k = list(base)
+            k[i] = b
+            keys.append(k)
+    keys += [[0] + base[1:], [1] + base[1:], [1, 1] + base[2:], [1, 1] + base[1:], [1, 2] + base[1:], base[:-1] + [0], base[:-1] + [1], base[:-1] + [0, 0]]
+    uniq = []
+    for k in keys:
+        if k not in uniq:
+            uniq.append(k)
+    short = [[], [5], [0], [1]]
+    ops = []
+    for s_ in uniq:
+        for p_ in short:
+            ops.append(dict(op="nuk", s=s_, p=p_))
+    for p_ in uniq:
+        for s_ in short:
+            ops.append(dict(op="nuk", s=s_, p=p_))
+    return ops
+
+
 def limbs(v, width):
     return [(v >> (16 * i)) & 0xffff for i in reversed(range(width // 16))]
 
@@ -89,6 +116,8 @@ def generate(tier, seed):
         tables.append(("nuk-exhaustive-3", nuk_table([0, 1, 2], 3)))
     for i in range(6 if quick else 60):
         tables.append((f"nuk-random-{i}", nuk_random(rng, 300)))
+    for i in range(3 if quick else 30):
+        tables.append((f"nuk-medium-{i}", nuk_medium(rng)))
     tables.append(("nuk-long", nuk_long(rng)))
     for w in (16, 32, 64):
         tables.append((f"uint{w}", uint_table(rng, w, 120 if quick else 600)))
